@@ -91,6 +91,20 @@ def find_fn(toks, name, lo=0, hi=None):
         top = [a for a in hits if depth_at.get(s[a], 1) == 0]
         if len(top) == 1:
             hits = top
+    if len(hits) > 1:
+        # R12: variants of one function under `cfg_transaction!{}` / `cfg_not_transaction!{}` (cfg_acceptor, cfg_wasm32 ...): the units are generated for
+        # transaction + acceptor on a non-wasm target, so the variants inside a wrapper that is off for that build are not candidates
+        OFF = ('cfg_not_transaction', 'cfg_not_acceptor', 'cfg_wasm32')
+        off_ranges = []
+        for k in range(lo, hi - 2):
+            if toks[k].kind == 'ident' and toks[k].text in OFF:
+                k1 = _next_sig(toks, k)
+                k2 = _next_sig(toks, k1) if k1 < hi else hi
+                if k1 < hi and k2 < hi and toks[k1].text == '!' and toks[k2].text == '{':
+                    off_ranges.append((k2, match_close(toks, k2)))
+        live = [a for a in hits if not any(o <= s[a] <= c for (o, c) in off_ranges)]
+        if len(live) == 1:
+            hits = live
     if len(hits) != 1:
         raise LostAnchor('fn %s found %d times' % (name, len(hits)))
     a = hits[0]
